@@ -68,7 +68,8 @@ func c09RR(sh, pos int) dns.RR {
 	case 3:
 		return &dns.TXT{Hdr: h(c09Q, dns.TypeTXT), Txt: []string{strings.Repeat("t", 200)}}
 	case 4:
-		return &dns.A{Hdr: h(`a\.b.example.org.`, dns.TypeA), A: []byte{203, 0, 113, byte(pos + 1)}}
+		// an owner with every kind of escape: an escaped dot, an escaped backslash, a \DDD octet
+		return &dns.A{Hdr: h(`a\.b\\c\000d.example.org.`, dns.TypeA), A: []byte{203, 0, 113, byte(pos + 1)}}
 	case 5:
 		return &dns.AAAA{Hdr: h(c09Q, dns.TypeAAAA), AAAA: []byte{0x20, 1, 0xd, 0xb8, 0, 0, 0, 0, 0, 0, 0, 0, 0, 0, 0, byte(pos + 1)}}
 	case 6:
